@@ -11,6 +11,13 @@ Streams
                   identity, block diagonal, products of Pythagorean rotations, zero columns, real
                   matrices, BCS-like pairing) against the Lean Model (indices exact, parameters / V /
                   diagonal at 1e-9) + oracles.
+  robust        : typed / non-contiguous arrays, argument integrity, repeatability of the decompositions.
+  helpers       : (S) histories interleaving the public helpers (givens_matrix_elements, givens_rotate,
+                  double_givens_rotate, row and col) with the decompositions on the very (a, b) the
+                  decomposition uses first: the helpers must not modify the rotation they are given,
+                  repeated givens_matrix_elements calls return equal, unshared arrays, then the
+                  reconstruction oracle; the two rotation helpers against their definitions, exactly,
+                  for dyadic complex G and M.
 
 Oracles (Spec, independent of the Model, on the implementation's own outputs)
   * reconstruction (numpy, 1e-9): the product of the elementary matrices rebuilt from the RETURNED
@@ -20,6 +27,7 @@ Oracles (Spec, independent of the Model, on the implementation's own outputs)
 """
 import itertools
 import math
+import random
 from fractions import Fraction as F
 
 import os
@@ -796,6 +804,209 @@ def stream_robust(ctx):
     return s
 
 
+# --------------------------------------------------------------------------- (S) public helpers interleaved with decompositions
+
+
+def ref_rotate(M, G, i, j, which):
+    """definition of givens_rotate on a copy (exact for dyadic entries)"""
+    M = M.copy()
+    if which == 'row':
+        ri, rj = M[i].copy(), M[j].copy()
+        M[i] = G[0, 0] * ri + G[0, 1] * rj
+        M[j] = G[1, 0] * ri + G[1, 1] * rj
+    else:
+        ci, cj = M[:, i].copy(), M[:, j].copy()
+        M[:, i] = G[0, 0] * ci + np.conj(G[0, 1]) * cj
+        M[:, j] = G[1, 0] * ci + np.conj(G[1, 1]) * cj
+    return M
+
+
+def ref_double_rotate(M, G, i, j, which):
+    """definition of double_givens_rotate: G on the first half, conj(G) on the second half"""
+    M = M.copy()
+    if which == 'row':
+        n = M.shape[0] // 2
+        M[:n] = ref_rotate(M[:n], G, i, j, 'row')
+        M[n:] = ref_rotate(M[n:], np.conj(G), i, j, 'row')
+    else:
+        n = M.shape[1] // 2
+        M[:, :n] = ref_rotate(M[:, :n], G, i, j, 'col')
+        M[:, n:] = ref_rotate(M[:, n:], np.conj(G), i, j, 'col')
+    return M
+
+
+def dyadic_c(rng):
+    return complex(rng.choice([-2, -1, -0.5, 0.25, 0.5, 1, 1.5]), rng.choice([-1, -0.5, 0.25, 0.5, 1, 2]))
+
+
+def cpairs(A):
+    return [[[float(x.real), float(x.imag)] for x in r] for r in np.asarray(A)]
+
+
+def cmat(rows):
+    return np.array([[complex(x[0], x[1]) for x in r] for r in rows], dtype=complex)
+
+
+def run_history(of, c):
+    """one helper history (deterministic in the case record); returns (problems, spec requests, comparisons)"""
+    gr = of.linalg.givens_rotations
+    fn, which = c['fn'], c['which']
+    a, b = complex(*c['a']), complex(*c['b'])
+    A = cmat(c['matrix'])
+    rng = random.Random(c['scratch'])
+    out, rqs, ncmp = [], [], 0
+    # (1) the rotation the decomposition is going to compute first, handed to the helpers beforehand
+    G1 = gr.givens_matrix_elements(a, b, which=which)
+    snap = np.array(G1, copy=True)
+    dt = G1.dtype
+    Gc = np.array(snap, dtype=complex)
+    k = rng.choice([3, 4])
+    Ms = np.array([[dyadic_c(rng) for _ in range(k)] for _ in range(k)])
+    Md = np.array([[dyadic_c(rng) for _ in range(4)] for _ in range(4)])
+    for wh in ('row', 'col'):
+        M1 = Ms.copy()
+        gr.givens_rotate(M1, G1, 0, 1, which=wh)
+        M2 = Md.copy()
+        gr.double_givens_rotate(M2, G1, 0, 1, which=wh)
+        ncmp += 2
+        if err(M1 - ref_rotate(Ms, Gc, 0, 1, wh)) > TOL or err(M2 - ref_double_rotate(Md, Gc, 0, 1, wh)) > TOL:
+            out.append(('givens_rotate / double_givens_rotate (%s) with the matrix of givens_matrix_elements does not follow '
+                        'its definition' % wh, {}))
+        if not (np.array_equal(G1, snap) and G1.dtype == dt):
+            out.append(('givens_rotate / double_givens_rotate (%s) modified the rotation matrix it was given' % wh,
+                        {'before': impl_summary(snap), 'after': impl_summary(G1)}))
+            break
+    G2 = gr.givens_matrix_elements(a, b, which=which)
+    if not np.array_equal(G2, snap):
+        out.append(('a second givens_matrix_elements(a, b) differs from the first after the helpers were applied',
+                    {'first': impl_summary(snap), 'second': impl_summary(G2)}))
+    if np.shares_memory(G2, G1):
+        out.append(('givens_matrix_elements returned an array sharing memory with an earlier result', {}))
+    G1[...] = 7
+    G3 = gr.givens_matrix_elements(a, b, which=which)
+    if not np.array_equal(G3, snap) or np.shares_memory(G3, G1) or np.shares_memory(G3, G2):
+        out.append(('givens_matrix_elements(a, b) changed after an earlier result was overwritten in place',
+                    {'first': impl_summary(snap), 'third': impl_summary(G3)}))
+    # (2) the decomposition itself, under the reconstruction oracle
+    if fn == 'square':
+        bad, val, rq = oracle_square(of, A, False)
+        rqs = [rq]
+    elif fn == 'givens':
+        bad, val, rq = oracle_givens(of, A, False)
+        rqs = [rq]
+    else:
+        bad, val, rqs = oracle_gauss(of, A)
+    if bad:
+        out.append(('%s after the helper history: %s' % (fn, bad), {'returned': impl_summary(val)}))
+    # and the helper once more after the decomposition
+    G4 = gr.givens_matrix_elements(a, b, which=which)
+    if not np.array_equal(G4, snap):
+        out.append(('givens_matrix_elements(a, b) differs after the decomposition ran', {}))
+    return out, rqs, ncmp
+
+
+def run_definition(of, cc):
+    """a rotation helper against its definition, exactly (dyadic complex G and M); returns a list of problems"""
+    gr = of.linalg.givens_rotations
+    G, M = cmat(cc['G']), cmat(cc['M'])
+    G0 = G.copy()
+    wh, i, j = cc['which'], cc['i'], cc['j']
+    M1 = M.copy()
+    out = []
+    if cc.get('double'):
+        ret = gr.double_givens_rotate(M1, G, i, j, which=wh)
+        want = ref_double_rotate(M, G0, i, j, wh)
+        name = 'double_givens_rotate'
+    else:
+        ret = gr.givens_rotate(M1, G, i, j, which=wh)
+        want = ref_rotate(M, G0, i, j, wh)
+        name = 'givens_rotate'
+    if not np.array_equal(M1, want) or ret is not None:
+        out.append('%s(which=%s) differs from its definition (coordinates %d, %d)' % (name, wh, i, j))
+    if not np.array_equal(G, G0):
+        out.append('%s(which=%s) modified the matrix G it was given' % (name, wh))
+    return out
+
+
+def stream_helpers(ctx):
+    s = Stream('helpers', '(S) histories that interleave the public helpers with the decompositions: G = givens_matrix_elements(a, b) '
+               'for the genuinely complex (a, b) the decomposition will use first, G handed to givens_rotate / double_givens_rotate '
+               '(row and col) on scratch matrices - G must stay bit-identical, a second givens_matrix_elements(a, b) must return an '
+               'equal array that shares no memory with the first, also after the first was overwritten - then the decomposition '
+               'with the reconstruction oracle; helpers against their definitions (exact, dyadic complex G and M, written in '
+               'place into M only); distinct = distinct histories')
+    of = ctx.of
+    rng = rng_for(ctx.seed, 'c11-helpers')
+    N = budget(ctx.tier, 120, 900)
+    if ctx.drift:
+        N = max(N, 400)
+    spec_batch = []
+    for t in range(N):
+        fn = rng.choice(['square', 'givens', 'gauss'])
+        n = rng.choice([2, 3, 3, 4])
+        if fn == 'gauss':
+            for _ in range(12):
+                W = gen_gauss_exact(rng, n, rng.choice(['group', 'group', 'bcs']))
+                if zrank([r[:n] for r in W]) == n:
+                    break
+            else:
+                continue
+            A = znp(W, 2 * n)
+            a, b, which = A[0, 0], A[1, 0], 'left'
+        else:
+            U = rand_unitary(rng, n, rng.choice(['dense', 'mixed', 'block', 'dense']))
+            if rng.random() < 0.5:
+                U = from_schedule(rng, ctx.driver, n, False)
+            m = n if fn == 'square' else rng.randint(2, n)
+            A = znp(U[:m], n)
+            if fn == 'square':
+                a, b, which = np.conj(A[0, n - 2]), np.conj(A[0, n - 1]), 'right'
+            else:
+                a, b, which = A[0, n - 1], A[1, n - 1], 'left'
+        cplx = bool(abs(a.imag) > 1e-3 or abs(b.imag) > 1e-3)
+        c = {'history': True, 'fn': fn, 'which': which, 'a': [float(a.real), float(a.imag)], 'b': [float(b.real), float(b.imag)],
+             'matrix': cpairs(A), 'scratch': rng.randrange(10 ** 9)}
+        s.case(c)
+        s.count('fn:' + fn)
+        s.count('complex-ab:%s' % cplx)
+        try:
+            out, rqs, ncmp = run_history(of, c)
+            s.float_comparisons += ncmp
+            s.count('oracle:reconstruction')
+            for what, detail in out:
+                s.violate(what, c, detail)
+            for rq in rqs:
+                add_spec(s, spec_batch, c, rq)
+        except Exception as e:
+            s.violate('helper history raised %s: %s' % (type(e).__name__, e), c, {})
+        # (3) helpers against their definitions, exactly, for dyadic complex G (not unitary on purpose) and M
+        G = [[dyadic_c(rng), dyadic_c(rng)], [dyadic_c(rng), dyadic_c(rng)]]
+        rows, cols = rng.choice([(3, 4), (4, 4), (4, 6), (6, 4)])
+        M = [[dyadic_c(rng) for _ in range(cols)] for _ in range(rows)]
+        for wh in ('row', 'col'):
+            for double in (False, True):
+                lim = rows if wh == 'row' else cols
+                if double:
+                    if lim % 2:
+                        continue
+                    lim //= 2
+                i, j = rng.sample(range(lim), 2)
+                cc = {'definition': True, 'G': cpairs(G), 'M': cpairs(M), 'which': wh, 'i': i, 'j': j, 'double': double}
+                s.case(cc)
+                s.count('definition:%s%s' % ('double-' if double else '', wh))
+                try:
+                    s.float_comparisons += 1
+                    for what in run_definition(of, cc):
+                        s.violate(what, cc, {})
+                except Exception as e:
+                    s.violate('rotation helper (%s) raised %s: %s' % (wh, type(e).__name__, e), cc, {})
+    answers = ctx.driver.run([r for _, r, _ in spec_batch])
+    for (case, rq, _), a_ in zip(spec_batch, answers):
+        if not a_['ok']:
+            s.violate('%s: layer structure violated at layer %d' % (case['fn'], a_['layer']), case, {'layers': rq['layers']})
+    return s
+
+
 # --------------------------------------------------------------------------- streams
 
 
@@ -1043,6 +1254,13 @@ def replay(ctx, payload):
     if not v:
         return None
     inp = v['input']
+    try:
+        if inp.get('definition'):
+            return not run_definition(ctx.of, inp)
+        if inp.get('history'):
+            return not run_history(ctx.of, inp)[0]
+    except Exception:
+        return False
     if 'matrix' not in inp or 'fn' not in inp:
         return None
 
@@ -1073,4 +1291,4 @@ def replay(ctx, payload):
 
 
 def run(ctx):
-    return [stream_schedule(ctx), stream_elements(ctx), stream_structured(ctx), stream_robust(ctx)]
+    return [stream_schedule(ctx), stream_elements(ctx), stream_structured(ctx), stream_robust(ctx), stream_helpers(ctx)]
